@@ -79,7 +79,7 @@ HCoarse == IF Thorough THEN { q \in QLat(2) : Primitive(q) /\ ~(q[2] = 0 /\ q[3]
            \cup { <<2,1,0,-1>>, <<-2,0,1,1>>, <<1,-2,2,0>>, <<-1,2,0,2>>, <<0,1,2,-2>> }
 (* Euler B321 targets close to (but outside) the 1e-3 rad gimbal band, with yaw and roll: pitch
    2e-3 .. 2e-2 rad from +-pi/2 -- inside the domain of C02/C03, where the band logic must NOT fire *)
-NearPoleY == { <<501,0,500,0>>, <<501,0,-500,0>>, <<101,0,100,0>>, <<51,0,-50,0>> }
+NearPoleY == { <<501,0,500,0>>, <<501,0,-500,0>>, <<101,0,100,0>>, <<51,0,-50,0>>, <<801,0,800,0>>, <<991,0,-990,0>> }
 HNearPole == { QMul(QMul(z, y), x) : z \in {<<2,0,0,1>>, <<1,0,0,-1>>}, y \in NearPoleY, x \in {<<3,1,0,0>>, <<1,-1,0,0>>} }
 (* Euler inputs inside the band / exactly at a pole (C03 only: exp(log X) = X to band tolerance) *)
 HBand     == { <<1,0,1,0>>, <<1,0,-1,0>>, <<1,1,1,-1>>, <<1,-1,-1,-1>>, <<-1,1,-1,1>>, <<1,1,-1,1>> }
